@@ -240,7 +240,11 @@ func (e *env) dataCase(c Case) {
 			for _, ch := range chunks {
 				s.sc.Feed(ch)
 			}
-			got, rerr, _, pan := s.read(len(want), vlib.Pick(rng, []int{1, 7, 1500, 70000}))
+			rbuf := vlib.Pick(rng, []int{1, 7, 1500, 70000})
+			if rbuf == 1 && len(want) > 1500 {
+				rbuf = 7
+			}
+			got, rerr, _, pan := s.read(len(want), rbuf)
 			if len(want) == 0 || true {
 				// let the client drain whatever is queued (ticket/seed packets after the last payload)
 				g2, e2, _, p2 := s.drain()
@@ -270,12 +274,8 @@ func (e *env) dataCase(c Case) {
 			// model of the client's reader on the same reads
 			var mdel []byte
 			mt, ms := 0, 0
-			for _, ch := range chunks {
-				rep := e.call("cli.rx %s %s", s.id, vlib.Hex(ch))
-				if rep[0] != "ok" {
-					break
-				}
-				mdel = append(mdel, vlib.UnHex(rep[1])...)
+			if rep := e.call("cli.rxs %s %s", s.id, hexList(chunks)); rep[0] == "ok" {
+				mdel = vlib.UnHex(rep[1])
 				for _, ev := range strings.Split(rep[2], ",") {
 					switch {
 					case strings.HasPrefix(ev, "T"):
@@ -300,7 +300,7 @@ func (e *env) dataCase(c Case) {
 		} else {
 			// ---- client → server
 			size := vlib.Pick(rng, []int{0, 1, 2, maxPktPay - 1, maxPktPay, maxPktPay + 1, 2*maxPktPay - 1, 2 * maxPktPay, 2*maxPktPay + 1, 5000, rng.Range(1, 4000)})
-			if e.r.Thorough() && rng.Intn(12) == 0 {
+			if e.r.Thorough() && rng.Intn(40) == 0 {
 				size = vlib.Pick(rng, []int{65535, 65536, 65537})
 			}
 			data := rng.Bytes(size)
@@ -518,6 +518,7 @@ type flipPre struct {
 	off    int // offset of the target packet
 	tlen   int // its length on the wire
 	head   []byte
+	all    []byte // every payload byte of the honest stream
 }
 
 func (e *env) flipPrepare(target string) *flipPre {
@@ -546,8 +547,14 @@ func (e *env) flipPrepare(target string) *flipPre {
 	w := e.srvSend(id, t)
 	p.tlen = len(w)
 	p.stream = append(p.stream, w...)
+	p.all = append([]byte(nil), head...)
+	if t.flag == flagData {
+		p.all = append(p.all, t.data...)
+	}
 	for i := 0; i < 3; i++ {
-		p.stream = append(p.stream, e.srvSend(id, spkt{flagData, rng.Bytes(600), 0})...)
+		fill := rng.Bytes(600)
+		p.all = append(p.all, fill...)
+		p.stream = append(p.stream, e.srvSend(id, spkt{flagData, fill, 0})...)
 	}
 	return p
 }
@@ -613,9 +620,13 @@ func (e *env) flipCase(c Case, pre *flipPre) {
 	case pan != nil:
 		e.r.Violate("reader-panic", "impl-oracle", fmt.Sprintf("Read panicked on a packet with bit %d (%s) flipped: %v", c.Bit, part, pan), c)
 		return
-	case !bytes.HasPrefix(pre.head, got) && !bytes.Equal(got, pre.head):
+	case !bytes.HasPrefix(pre.all, got):
 		e.r.Violate("altered-data-delivered", "impl-oracle",
-			fmt.Sprintf("%s packet, bit %d (%s) flipped: Read delivered %d bytes %q that the server did not send at that position (err=%v)", c.Target, c.Bit, part, len(got), trunc(string(got), 40), rerr), c)
+			fmt.Sprintf("%s packet, bit %d (%s) flipped: Read delivered %d bytes that are not a prefix of what the server sent (err=%v)", c.Target, c.Bit, part, len(got), rerr), c)
+		return
+	case len(got) > len(pre.head):
+		e.r.Violate("modified-packet-accepted", "impl-oracle",
+			fmt.Sprintf("%s packet, bit %d (%s) flipped: Read went on past the modified packet and delivered %d bytes (err=%v)", c.Target, c.Bit, part, len(got), rerr), c)
 		return
 	case rerr == nil:
 		e.r.Violate("modified-packet-not-reported", "impl-oracle",
